@@ -54,8 +54,8 @@
 (***************************************************************************)
 EXTENDS UriPath
 CONSTANTS Tier            \* "quick" | "thorough": size of the enumerated scenario sets
-VARIABLES cfg, pc, hop, cur, memo, imp, sattr, nsctx, out, phase
-vars == <<cfg, pc, hop, cur, memo, imp, sattr, nsctx, out, phase>>
+VARIABLES cfg, pc, hop, cur, memo, nsmemo, coll, imp, sattr, nsctx, out, phase
+vars == <<cfg, pc, hop, cur, memo, nsmemo, coll, imp, sattr, nsctx, out, phase>>
 
 (* ------------------------------------------------------------------ the directory layouts *)
 Dirs == << <<>>, <<"a">>, <<"a", "b">>, <<"a", "b", "c">>, <<"x">> >>
@@ -99,20 +99,28 @@ ApiSp == {1, 2, 3, 5, 8, 11, 12, 13}          \* quick tier: spellings used for 
 UriConfigs ==
   LET W == 1..Len(Dirs)  S == 1..NSp  L == 1..3 IN
   (* single requests: every kind of tag *)
-  {[fam |-> "uri", layout |-> l, reqs |-> <<Req(w, s, k, 0)>>] : l \in (IF Tier = "quick" THEN {1, 3} ELSE L), w \in W, s \in 1..NSp, k \in Kinds}
-  \cup {[fam |-> "uri", layout |-> l, reqs |-> <<Req(w, s, "include", 0)>>] : l \in {2, 3}, w \in W, s \in 1..NSp}
+  {[fam |-> "uri", reach |-> "none", layout |-> l, reqs |-> <<Req(w, s, k, 0)>>] : l \in (IF Tier = "quick" THEN {1, 3} ELSE L), w \in W, s \in 1..NSp, k \in Kinds}
+  \cup {[fam |-> "uri", reach |-> "none", layout |-> l, reqs |-> <<Req(w, s, "include", 0)>>] : l \in {2, 3}, w \in W, s \in 1..NSp}
   (* the same spelling from two different directories on one lookup (memo) *)
-  \cup UNION {{[fam |-> "uri", layout |-> l, reqs |-> <<Req(w, s, k, 0), Req(w2, s, k, 0)>>] :
+  \cup UNION {{[fam |-> "uri", reach |-> "none", layout |-> l, reqs |-> <<Req(w, s, k, 0), Req(w2, s, k, 0)>>] :
                   l \in {1, 3}, w2 \in W \ {w}, s \in {z \in S : ~Spellings[z].empty},
                   k \in (IF Tier = "quick" THEN {"include", "nsfile"} ELSE Kinds)} : w \in W}
   (* two hops: W -> u (spelling s1) -> t (spelling s2) *)
-  \cup {[fam |-> "uri", layout |-> l, reqs |-> <<Req(w, s, "include", s2)>>] :
+  \cup {[fam |-> "uri", reach |-> "none", layout |-> l, reqs |-> <<Req(w, s, "include", s2)>>] :
           l \in (IF Tier = "quick" THEN {1} ELSE L), w \in W, s \in {z \in S : ~Spellings[z].empty}, s2 \in {z \in S : ~Spellings[z].empty}}
+  (* ONE render reaching two writers in different directories, both carrying the same spelling in the same kind of tag / call: *)
+  (* entry template E (at the root) includes both / takes both as namespaces and calls their body() / inherits the first and  *)
+  (* includes the second.  Everything memoised per render (context.namespaces) or per lookup is shared between the two.       *)
+  \cup {c \in UNION {{[fam |-> "uri", reach |-> rc, layout |-> l, reqs |-> <<Req(w, s, k, 0), Req(w2, s, k, 0)>>] :
+                  l \in {1, 2}, w2 \in W \ {w}, rc \in {"include", "nsbody", "inherit"},
+                  s \in (IF Tier = "quick" THEN ApiSp ELSE {z \in S : ~Spellings[z].empty}), k \in Kinds} : w \in W} :
+            /\ c.reqs[1].k1 # "inherit"       \* (x.body() / next.body() of a writer that itself inherits would not show its target)
+            /\ (Tier = "quick" /\ c.layout = 2) => c.reqs[1].k1 \in {"getns", "nsfile", "include"}}
   (* two hops through the Namespace API: W -> namespace of H (spelling s1) -> t (spelling s2 resolved through H) *)
-  \cup {[fam |-> "uri", layout |-> l, reqs |-> <<Req5(w, s, k, s2, k2)>>] :
+  \cup {[fam |-> "uri", reach |-> "none", layout |-> l, reqs |-> <<Req5(w, s, k, s2, k2)>>] :
           l \in {1, 2}, w \in W, k \in {"nsfile", "getns"}, k2 \in ApiKinds,
           s \in (IF Tier = "quick" THEN ApiSp ELSE {z \in S : ~Spellings[z].empty}),
-          s2 \in (IF Tier = "quick" THEN ApiSp ELSE ApiSp \cup {4, 6, 15, 17})}
+          s2 \in (IF Tier = "quick" THEN {1, 3, 5, 11, 12} ELSE ApiSp \cup {4, 6, 15, 17})}
 
 (* ------------------------------------------------------------------ the other families *)
 Names == {"p", "q"}
@@ -143,14 +151,27 @@ IncPosConfigs == {[fam |-> "incpos", pos |-> p, sa |-> x, sb |-> y] :
                     p \in IncPositions, x \in SUBSET Sources, y \in {{}, {"args"}, {"render"}, {"assign"}, {"page"}}}
 Configs == UriConfigs \cup NsConfigs \cup InhConfigs \cup IncConfigs \cup MultiConfigs \cup IncPosConfigs \cup ImportConfigs
 
-InitWith(c) == /\ cfg = c /\ pc = 1 /\ hop = 1 /\ cur = <<>> /\ memo = {} /\ imp = {} /\ sattr = {} /\ nsctx = <<>> /\ out = <<>> /\ phase = "run"
-Init == /\ cfg \in Configs /\ pc = 1 /\ hop = 1 /\ cur = <<>> /\ memo = {} /\ imp = {} /\ sattr = {} /\ nsctx = <<>> /\ out = <<>> /\ phase = "run"
+InitWith(c) == /\ cfg = c /\ pc = 1 /\ hop = 1 /\ cur = <<>> /\ memo = {} /\ nsmemo = {} /\ coll = {} /\ imp = {} /\ sattr = {} /\ nsctx = <<>> /\ out = <<>> /\ phase = "run"
+Init == /\ cfg \in Configs /\ pc = 1 /\ hop = 1 /\ cur = <<>> /\ memo = {} /\ nsmemo = {} /\ coll = {} /\ imp = {} /\ sattr = {} /\ nsctx = <<>> /\ out = <<>> /\ phase = "run"
 
 (* ================================================================== family "uri" *)
 EntryUri(r) == Dirs[r.w] \o <<"w">>
 HasL(r, n) == Has(cfg.layout, r, n)
 Marker(n, root) == "at|" \o (IF Len(n) = 1 THEN "" ELSE n[1]) \o (IF Len(n) > 2 THEN "/" \o n[2] ELSE "") \o (IF Len(n) > 3 THEN "/" \o n[3] ELSE "")
                    \o "|" \o ToString(root)
+(* The memos on the resolution path, with the keys the code uses:                                                     *)
+(*   memo    lookup._uri_cache            (uri as written, relativeto)      -> adjusted uri        per lookup        *)
+(*   coll    lookup._collection           adjusted uri                       -> template (its root) per lookup        *)
+(*   nsmemo  context.namespaces           (namespace object, uri as written) -> namespace (its template's uri)        *)
+(*                                        for get_namespace; <%namespace> tags are keyed (module of the declaring     *)
+(*                                        template, name): here ("tag", request).  Per render: shared by all the      *)
+(*                                        Context copies of one render, emptied when the next render starts.          *)
+OneRender == cfg.reach # "none"
+(* does this hop go through a per-render namespace memo, and under which namespace object / key? *)
+NsKey(r, h) ==
+  IF h = 1 THEN (IF r.k1 = "getns" THEN <<"local", pc>> ELSE IF r.k1 = "nsfile" THEN <<"tag", pc>> ELSE <<>>)
+  ELSE (IF r.k2 \in {"out.getns", "in.getns"} THEN <<"h", pc>> ELSE <<>>)
+NsHit(key, u) == key # <<>> /\ \E m \in nsmemo : m.ns = key /\ m.uri = u
 (* one tag is evaluated: runtime._lookup_template(context, uri, calling_uri) *)
 Resolve ==
   /\ phase = "run" /\ cfg.fam = "uri" /\ pc <= Len(cfg.reqs)
@@ -158,16 +179,26 @@ Resolve ==
          rel == IF hop = 1 THEN EntryUri(r) ELSE cur
          s == IF hop = 1 THEN r.s1 ELSE r.s2
          fname == IF hop = 1 THEN HopFile(r) ELSE "t"
-         nextreq == /\ pc' = pc + 1 /\ hop' = 1 /\ cur' = <<>>
+         key == NsKey(r, hop)
+         (* the next request is the next render (fresh Context) unless the whole session is one render *)
+         nextreq(nm) == /\ pc' = pc + 1 /\ hop' = 1 /\ cur' = <<>> /\ nsmemo' = (IF OneRender THEN nm ELSE {})
+         (* a TemplateLookupException ends the render: in a one-render session nothing more is rendered *)
+         failed == /\ out' = Append(out, "exc|lookup") /\ hop' = 1 /\ cur' = <<>> /\ nsmemo' = (IF OneRender THEN nsmemo ELSE {})
+                   /\ pc' = (IF OneRender THEN Len(cfg.reqs) + 1 ELSE pc + 1)
      IN IF Spellings[s].empty
-        THEN /\ out' = Append(out, "exc|lookup") /\ memo' = memo /\ nextreq          \* "" names nothing
+        THEN /\ failed /\ memo' = memo /\ coll' = coll                                \* "" names nothing
         ELSE LET u == Uri(s, fname)
-                 looked == AdjustUri(memo, u, rel)
-                 root == Locate(looked, NRootsOf(cfg.layout), HasL)
-             IN /\ memo' = MemoAfter(memo, u, rel)
-                /\ IF root = 0 THEN /\ out' = Append(out, "exc|lookup") /\ nextreq
-                   ELSE IF fname # "t" THEN /\ out' = out /\ hop' = 2 /\ cur' = looked /\ pc' = pc
-                   ELSE /\ out' = Append(out, Marker(Norm(looked), root)) /\ nextreq
+                 hit == NsHit(key, u)
+                 looked == IF hit THEN (CHOOSE m \in nsmemo : m.ns = key /\ m.uri = u).val ELSE AdjustUri(memo, u, rel)
+                 root == IF \E c \in coll : c.uri = looked THEN (CHOOSE c \in coll : c.uri = looked).root
+                         ELSE Locate(looked, NRootsOf(cfg.layout), HasL)
+                 nm == IF key = <<>> \/ hit \/ root = 0 THEN nsmemo
+                       ELSE nsmemo \cup {[ns |-> key, uri |-> u, rel |-> rel, val |-> looked]}
+             IN /\ memo' = (IF hit THEN memo ELSE MemoAfter(memo, u, rel))
+                /\ coll' = (IF root = 0 THEN coll ELSE coll \cup {[uri |-> looked, root |-> root]})
+                /\ IF root = 0 THEN failed
+                   ELSE IF fname # "t" THEN /\ out' = out /\ hop' = 2 /\ cur' = looked /\ pc' = pc /\ nsmemo' = nm
+                   ELSE /\ out' = Append(out, Marker(Norm(looked), root)) /\ nextreq(nm)
   /\ UNCHANGED <<cfg, nsctx, imp, sattr, phase>>
 
 (* ================================================================== family "nsprec" *)
@@ -176,7 +207,7 @@ Provider(c, x) == IF x \in c.I THEN "I" ELSE IF x \in c.F THEN "F" ELSE "ERR"   
 PopulateImports ==
   /\ phase = "run" /\ cfg.fam = "nsprec" /\ pc = 1
   /\ imp' = Imported(cfg) /\ pc' = 2
-  /\ UNCHANGED <<cfg, nsctx, hop, cur, memo, sattr, out, phase>>
+  /\ UNCHANGED <<cfg, nsmemo, coll, nsctx, hop, cur, memo, sattr, out, phase>>
 CallSeq == <<"p", "q">>
 Unqualified(c, x) == IF x \in imp THEN Provider(c, x) ELSE IF x \in c.C THEN "C" ELSE "ERR"  \* _import_ns.get(x, context.get(x, UNDEFINED))
 Calls ==
@@ -184,7 +215,7 @@ Calls ==
   /\ LET x == CallSeq[pc - 1] IN
      out' = out \o <<"call|ns." \o x, Provider(cfg, x) \o "|" \o x, "call|" \o x, Unqualified(cfg, x) \o "|" \o x>>
   /\ pc' = pc + 1
-  /\ UNCHANGED <<cfg, nsctx, hop, cur, memo, imp, sattr, phase>>
+  /\ UNCHANGED <<cfg, nsmemo, coll, nsctx, hop, cur, memo, imp, sattr, phase>>
 
 (* ================================================================== family "inh" *)
 (* linking runs _mako_generate_namespaces of every template of the chain, most derived first,   *)
@@ -193,14 +224,14 @@ GenNamespaces ==
   /\ phase = "run" /\ cfg.fam = "inh" /\ hop = 1 /\ pc <= cfg.N
   /\ LET lvl == cfg.N + 1 - pc IN sattr' = (IF lvl = cfg.d THEN sattr \cup {"ns"} ELSE sattr)
   /\ (IF pc = cfg.N THEN hop' = 2 /\ pc' = 1 ELSE hop' = 1 /\ pc' = pc + 1)
-  /\ UNCHANGED <<cfg, nsctx, cur, memo, imp, out, phase>>
+  /\ UNCHANGED <<cfg, nsmemo, coll, nsctx, cur, memo, imp, out, phase>>
 Bodies ==
   /\ phase = "run" /\ cfg.fam = "inh" /\ hop = 2 /\ pc <= cfg.N
   /\ out' = out \o <<"open|" \o ToString(pc)>>
             \o (IF pc >= cfg.d THEN <<"call|self.ns.p|" \o ToString(pc),
                                       IF "ns" \in sattr THEN (IF cfg.kind = "inline" THEN "I|p" ELSE "F|p") ELSE "ERR|p">> ELSE <<>>)
   /\ pc' = pc + 1
-  /\ UNCHANGED <<cfg, nsctx, hop, cur, memo, imp, sattr, phase>>
+  /\ UNCHANGED <<cfg, nsmemo, coll, nsctx, hop, cur, memo, imp, sattr, phase>>
 
 (* ================================================================== family "include" *)
 ArgVal(pat) == CASE pat \in {"args", "both"} -> 1 [] pat = "ctx" -> 2 [] pat = "none" -> 0   \* args first, context second, default
@@ -220,7 +251,7 @@ Include ==
               [] cfg.pos = "derived" -> <<"open|B", "open|D">> \o TargetTokens(cfg) \o <<"close|D", "close|B">>
               [] cfg.pos = "base" -> <<"open|B">> \o TargetTokens(cfg) \o <<"open|D", "close|D", "close|B">>
   /\ pc' = 2
-  /\ UNCHANGED <<cfg, nsctx, hop, cur, memo, imp, sattr, phase>>
+  /\ UNCHANGED <<cfg, nsmemo, coll, nsctx, hop, cur, memo, imp, sattr, phase>>
 
 (* ================================================================== family "imports" *)
 (* tag k provides the defs d<k> and e<k>; import="d<k>" or "*"; with cfg.ctx the context has callables of all those names *)
@@ -232,7 +263,7 @@ PopulateTag ==
   /\ phase = "run" /\ cfg.fam = "imports" /\ hop = 1 /\ pc <= Len(cfg.tags)
   /\ imp' = imp \cup {[name |-> x, tag |-> pc] : x \in ImportedBy(pc)}
   /\ (IF pc = Len(cfg.tags) THEN hop' = 2 /\ pc' = 1 ELSE hop' = 1 /\ pc' = pc + 1)
-  /\ UNCHANGED <<cfg, nsctx, cur, memo, sattr, out, phase>>
+  /\ UNCHANGED <<cfg, nsmemo, coll, nsctx, cur, memo, sattr, out, phase>>
 ProviderTok(k, x) == "P" \o ToString(k) \o "|" \o x
 UnqualifiedTok(x) == IF \E m \in imp : m.name = x THEN ProviderTok((CHOOSE m \in imp : m.name = x).tag, x)
                      ELSE IF cfg.ctx THEN "C|" \o x ELSE "ERR|" \o x
@@ -241,7 +272,7 @@ TagCalls ==
   /\ out' = out \o <<"call|" \o DName(pc), UnqualifiedTok(DName(pc)), "call|" \o EName(pc), UnqualifiedTok(EName(pc))>>
                \o (IF cfg.tags[pc].anon THEN <<>> ELSE <<"call|n" \o ToString(pc) \o "." \o EName(pc), ProviderTok(pc, EName(pc))>>)
   /\ pc' = pc + 1
-  /\ UNCHANGED <<cfg, nsctx, hop, cur, memo, imp, sattr, phase>>
+  /\ UNCHANGED <<cfg, nsmemo, coll, nsctx, hop, cur, memo, imp, sattr, phase>>
 
 (* ================================================================== family "incpos" *)
 (* Values: args= gives 1, render() 2, the body assignment 3, the includer's own <%page args="z=4"/> default 4,      *)
@@ -263,7 +294,7 @@ IncludeAt ==
               "arg|b|" \o ToString(PageArg(cfg.pos, cfg.sb)), "ctx|b|" \o ToString(CtxAt(cfg.pos, cfg.sb)),
               "close|T", "close|M">>
   /\ pc' = 2
-  /\ UNCHANGED <<cfg, nsctx, hop, cur, memo, imp, sattr, phase>>
+  /\ UNCHANGED <<cfg, nsmemo, coll, nsctx, hop, cur, memo, imp, sattr, phase>>
 
 (* ================================================================== family "multins" *)
 (* the template a namespace of that kind refers to: what self/local are inside its defs.  An inline def is *)
@@ -276,7 +307,7 @@ MakeNamespace ==
   /\ phase = "run" /\ cfg.fam = "multins" /\ hop = 1 /\ pc <= Len(cfg.decl)
   /\ nsctx' = Append(nsctx, [self |-> OwnId(cfg.decl[pc]), v |-> 7])
   /\ (IF pc = Len(cfg.decl) THEN hop' = 2 /\ pc' = 1 ELSE hop' = 1 /\ pc' = pc + 1)
-  /\ UNCHANGED <<cfg, cur, memo, imp, sattr, out, phase>>
+  /\ UNCHANGED <<cfg, nsmemo, coll, cur, memo, imp, sattr, out, phase>>
 (* what def probe of a namespace of `kind` prints when its context says self = id and v = val *)
 Observed(kind, id, val) ==
   IF kind = "mod" THEN <<"probe|P", "ctx|" \o ToString(val)>>
@@ -286,14 +317,14 @@ Probe ==
   /\ phase = "run" /\ cfg.fam = "multins" /\ hop = 2 /\ pc <= Len(cfg.decl)
   /\ out' = out \o <<"call|" \o cfg.decl[pc]>> \o Observed(cfg.decl[pc], nsctx[pc].self, nsctx[pc].v)
   /\ pc' = pc + 1
-  /\ UNCHANGED <<cfg, nsctx, hop, cur, memo, imp, sattr, phase>>
+  /\ UNCHANGED <<cfg, nsmemo, coll, nsctx, hop, cur, memo, imp, sattr, phase>>
 
 Finished ==
   CASE cfg.fam = "uri" -> pc > Len(cfg.reqs) [] cfg.fam = "nsprec" -> pc > 3
     [] cfg.fam = "inh" -> hop = 2 /\ pc > cfg.N [] cfg.fam \in {"include", "incpos"} -> pc > 1
     [] cfg.fam = "multins" -> hop = 2 /\ pc > Len(cfg.decl)
     [] cfg.fam = "imports" -> hop = 2 /\ pc > Len(cfg.tags)
-Finish == /\ phase = "run" /\ Finished /\ phase' = "done" /\ UNCHANGED <<cfg, nsctx, pc, hop, cur, memo, imp, sattr, out>>
+Finish == /\ phase = "run" /\ Finished /\ phase' = "done" /\ UNCHANGED <<cfg, nsmemo, coll, nsctx, pc, hop, cur, memo, imp, sattr, out>>
 Next == Resolve \/ PopulateImports \/ Calls \/ GenNamespaces \/ Bodies \/ Include \/ IncludeAt \/ PopulateTag \/ TagCalls \/ MakeNamespace \/ Probe \/ Finish
 Spec == Init /\ [][Next]_vars
 
@@ -314,11 +345,17 @@ ExpectReq(r) ==
        ELSE IF Spellings[r.s2].empty THEN "exc|lookup"
        ELSE LET u2 == ExpectHop(u1, r.s2, "t")  r2 == Locate(u2, NRootsOf(cfg.layout), HasL) IN
             IF r2 = 0 THEN "exc|lookup" ELSE Marker(Norm(u2), r2)
-RelativeToWriter == (Done /\ cfg.fam = "uri") => \A k \in 1..Len(cfg.reqs) : ~Spellings[cfg.reqs[k].s1].abs => out[k] = ExpectReq(cfg.reqs[k])
-AbsoluteToRoot == (Done /\ cfg.fam = "uri") => \A k \in 1..Len(cfg.reqs) : Spellings[cfg.reqs[k].s1].abs => out[k] = ExpectReq(cfg.reqs[k])
-UnresolvableRaisesLookup == (Done /\ cfg.fam = "uri") => \A k \in 1..Len(cfg.reqs) :
-   (out[k] = "exc|lookup") <=> (ExpectReq(cfg.reqs[k]) = "exc|lookup")
-MemoConsistent == MemoConsistentOn(memo)
+RelativeToWriter == (Done /\ cfg.fam = "uri") => \A k \in 1..Len(out) : ~Spellings[cfg.reqs[k].s1].abs => out[k] = ExpectReq(cfg.reqs[k])
+AbsoluteToRoot == (Done /\ cfg.fam = "uri") => \A k \in 1..Len(out) : Spellings[cfg.reqs[k].s1].abs => out[k] = ExpectReq(cfg.reqs[k])
+UnresolvableRaisesLookup == (Done /\ cfg.fam = "uri") =>
+   /\ \A k \in 1..Len(out) : (out[k] = "exc|lookup") <=> (ExpectReq(cfg.reqs[k]) = "exc|lookup")
+   /\ Len(out) = Len(cfg.reqs) \/ (OneRender /\ Len(out) >= 1 /\ out[Len(out)] = "exc|lookup")   \* only an exception cuts a render short
+(* no memo changes an answer: every entry holds what a fresh computation would give for its key *)
+MemoConsistent ==
+  /\ MemoConsistentOn(memo)
+  /\ \A m \in nsmemo : m.val = Compute(m.uri, m.rel)
+  /\ \A m1, m2 \in nsmemo : (m1.ns = m2.ns /\ m1.uri = m2.uri) => m1 = m2
+  /\ cfg.fam = "uri" => \A c \in coll : c.root = Locate(c.uri, NRootsOf(cfg.layout), HasL)
 InlineDefsWin == (Done /\ cfg.fam = "nsprec") => \A x \in cfg.I : "I|" \o x \in Toks /\ \A k \in 1..Len(out) : out[k] = "call|ns." \o x => out[k + 1] = "I|" \o x
 ImportsBeforeContext ==
   /\ (Done /\ cfg.fam = "nsprec") =>
